@@ -7,6 +7,8 @@
 import PySpikeVerif.Properties.C01
 import PySpikeVerif.Properties.C07
 import PySpikeVerif.Proofs.SpikeLaws
+import PySpikeVerif.Proofs.SpikeScan
+import PySpikeVerif.Proofs.FilterLaws
 
 namespace PySpike.C18
 open PySpike PySpike.C01
@@ -58,5 +60,24 @@ theorem discrete_profile_edges (ts te : Q) (es : List (Q × Q × Q)) :
 /-- the scalar conventions never divide by zero: SPIKE-Sync / order return 1 for zero multiplicity,
     normalised directionality 0 for a train without spikes -/
 theorem sync_no_zero_division (c : Q) : syncRatio (c, 0) = 1 := by simp [syncRatio]
+
+/-- SPIKE scan: every interval length it carries equals `nuAt` on the current piece (hence is
+    positive by `interval_length_pos`: no emitted SPIKE value has a zero denominator) -/
+theorem spike_interval_length_is_nuAt (s o : List Q) (ts te t : Q) (hs : s.Pairwise (· < ·)) (hne : s ≠ []) :
+    (spikeContrib s o ts te t true).2 = nuAt s ts te t := B4_contrib_isi_eq_nuAt s o ts te t hs hne
+
+/-- SPIKE-profile: same strictly increasing time axis as the ISI-profile, one start and one end
+    value per piece, for ALL inputs -/
+theorem spike_profile_shape (t1 t2 : List Q) (ts te m : Q) (ri : Bool) :
+    (spikeProfile t1 t2 ts te m ri).1 = (isiProfile t1 t2 ts te 0).1 ∧
+    (spikeProfile t1 t2 ts te m ri).2.1.length + 1 = (spikeProfile t1 t2 ts te m ri).1.length ∧
+    (spikeProfile t1 t2 ts te m ri).2.2.length + 1 = (spikeProfile t1 t2 ts te m ri).1.length :=
+  ⟨spikeProfile_breaks t1 t2 ts te m ri, (B6_spikeProfile_shape t1 t2 ts te m ri).1,
+   (B6_spikeProfile_shape t1 t2 ts te m ri).2⟩
+
+/-- discrete profiles: non-decreasing time axis from `t_start` to `t_end` with the two edge entries -/
+theorem discrete_profile_sorted (ts te : Q) (es : List (Q × Q × Q)) (hle : ts ≤ te)
+    (hs : (es.map (·.1)).Pairwise (· ≤ ·)) (hb : ∀ e ∈ es, ts ≤ e.1 ∧ e.1 ≤ te) :
+    ((frameProfile ts te es).map (·.1)).Pairwise (· ≤ ·) := B6_frameProfile_sorted ts te es hle hs hb
 
 end PySpike.C18
